@@ -423,9 +423,16 @@ async def open_child_case(case: dict[str, Any], sc: Scenario) -> None:
                         class Keeper(Component):
                             async def start(self) -> None:
                                 seen.append(current_context())
+                                if seen[0].closed:
+                                    sc.bad("lifecycle-closed-flag[component-context]", "the context a component sees in start() reports itself closed")
 
                         await start_component(Keeper, timeout=None)
                         given = seen[0]
+                        # (that object was a context with a block of its own, which has been left by now: it is closed, and says so)
+                        sc.inc("component_contexts_asked_for_their_closed_flag_after_the_start")
+                        if given is not parent and not given.closed:
+                            sc.bad("lifecycle-closed-flag[component-context]", "the context a component saw in start() does not report itself closed after the start-up, "
+                                                                               "although it can no longer be entered")
                     if case["explicit_parent"] == "foreign_task":
                         # the child is created - with this context as its explicit parent - by a task that lives in a context tree of its
                         # own (its current context is an unrelated root)
